@@ -160,6 +160,7 @@ package config
 //@   modifies all
 //@   callpre run @every-round-opens-a-stream-with-the-same-context arg0 == c && arg1 == ctx
 //@   proves @gives-up-only-when-the-context-is-done waitedfor(ctxdone(ctx))
+//@   callpre NewTimer @the-retry-timer-is-armed-anew-in-every-round-right-after-the-context-was-found-alive polledopen(ctxdone(ctx))
 
 //@ func (*svcDiscoveryClient).run
 //@   prop C16
